@@ -39,25 +39,31 @@ func placementByName(s string) (Placement, bool) {
 // observesCompletion: the completion value of the program text is the result of the run.
 func (p Placement) observesCompletion() bool { return p == PGlobal || p == PEval || p == PGEval }
 
-// wrap builds the script for a program text in a placement / mode.
-func wrap(src string, pl Placement, strict bool) string {
-	us := ""
-	if strict {
-		us = "\"use strict\";\n"
-	}
+// wrap builds the script for a program text in a placement. Strict-mode runs use a program that starts with a
+// "use strict" directive (see modeProg), so the directive is part of the text in every placement.
+func wrap(src string, pl Placement) string {
 	switch pl {
 	case PGlobal:
-		return us + src
+		return src
 	case PFunc:
-		return "(function(){\n" + us + src + "})();"
+		return "(function(){\n" + src + "})();"
 	case PArrow:
-		return "(() => {\n" + us + src + "})();"
+		return "(() => {\n" + src + "})();"
 	case PEval:
-		return "(function(){\n" + us + "return eval(" + strconv.Quote(src) + ");\n})();"
+		return "(function(){\nreturn eval(" + strconv.Quote(src) + ");\n})();"
 	case PGEval:
-		return "eval(" + strconv.Quote(us+src) + ");"
+		return "eval(" + strconv.Quote(src) + ");"
 	}
 	panic("bad placement")
+}
+
+// modeProg returns the program as run in a mode: strict = a "use strict" directive is prepended (it is part of
+// the IR, so the reference interpreter sees - and evaluates - exactly the same program).
+func modeProg(p *irjs.Node, strict bool) *irjs.Node {
+	if !strict {
+		return p
+	}
+	return insertKid(p, 0, irjs.N("directive", irjs.A(`"use strict"`)))
 }
 
 const gojaStepBudget = 200000
